@@ -64,12 +64,20 @@ def main(inp, outp):
     for pi, pr in enumerate(job["pairs"]):
         a, b = pr["a"], pr["b"]
         for di, dspec in enumerate(job["dates"]):
+          for twin in (False, True):
             date = Date(*dspec)
             lab = labels[(pi + di) % len(labels)]
             dl = date if lab == "UTC" else date.change_scale(lab)
+            if twin:
+                # the SAME calendar fields read in another time scale: another instant (19 s .. 69 s away) with the same
+                # numeric Julian date in its own scale - converted right after the first one, on the same frames
+                lab = labels[(pi + di + 2) % len(labels)]
+                if lab == "UTC":
+                    continue
+                dl = date = Date(*dspec, scale=lab)
             jd = date.change_scale("TDB").jd
             want = formal(pr["plus"], pr["minus"], jd)
-            data = {"from": fname(a), "body": fname(b), "date": dspec, "date_label": lab, "pck": job.get("pck", True),
+            data = {"from": fname(a), "body": fname(b), "date": dspec, "date_label": lab, "same_fields_in_label_scale": twin, "pck": job.get("pck", True),
                     "plus": [seglist[k - 1] for k in pr["plus"]], "minus": [seglist[k - 1] for k in pr["minus"]],
                     "how": "StateVector(origin of body b's frame, date).copy(frame=a) ; jpl.get_orbit(b, date).copy(frame=a)"}
             res["evaluations"] += 1
